@@ -1,4 +1,5 @@
 import SamplyModel.Lemmas.FileCreationRetry
+import SamplyModel.Lemmas.DownloadWrite
 /-!
 # C16 — cache files appear atomically: complete or not at all
 
@@ -274,3 +275,45 @@ example : ((run C16_payload State.init
     [.step 0, .step 0, .step 0, .step 0, .step 0, .crash 0]).map fun s =>
     (s.destContent, s.part.map s.content, s.lockName, s.pc 0, s.pc 5)) =
     some (none, some [1], some 0, .dead, .idle) := by decide
+
+
+/-! ## The download call site (`wholesym/src/downloader.rs:322-347`)
+
+`create_file_cleanly` renames `dest.part` onto `dest` exactly when the write callback returns `Ok`
+(`C16_atomic`, `C16_success_sees_complete` speak about "the complete payload the callback produces"). For the
+downloader's callback over `tokio::fs::File` — whose write errors surface only on the *next* operation — the
+following theorems say that `Ok` is returned only if every piece of the stream was read and every write,
+including the last one, succeeded, and that the file then holds exactly the downloaded bytes. -/
+
+/-- The callback returns `Ok` iff the stream delivered all its pieces and every started write succeeded. -/
+theorem C16_download_callback_ok_iff (env : DL.Env) (stream : List (Option (List UInt8))) :
+    (∃ n, (DL.run env true stream).1 = .ok n) ↔
+      (DL.allRead stream = true ∧ ∀ k, k < stream.length → env.disk k = true) := by
+  constructor
+  · rintro ⟨n, hn⟩
+    have h := DL.callback_ok stream {} n (DL.run env true stream).2 (by rw [← hn]; rfl)
+    exact ⟨h.2.1, fun k hk => h.2.2.1 k (Nat.zero_le _) (by simpa using hk)⟩
+  · rintro ⟨h1, h2⟩
+    have h := DL.callback_all_good (env := env) true stream {} (by simp) h1
+      (fun k _ hk => h2 k (by simpa using hk))
+    exact ⟨_, h.1⟩
+
+/-- When the callback returns `Ok n`, the `.part` file holds exactly the bytes the stream delivered and `n`
+is their number: what gets renamed onto the final path is the complete download. -/
+theorem C16_download_callback_ok_complete (env : DL.Env) (stream : List (Option (List UInt8))) (n : Nat)
+    (h : (DL.run env true stream).1 = .ok n) :
+    (DL.run env true stream).2.file = DL.payload stream ∧ n = (DL.payload stream).length := by
+  have h' := DL.callback_ok stream {} n (DL.run env true stream).2 (by rw [← h]; rfl)
+  exact ⟨by simpa using h'.2.2.2.1, by simpa using h'.2.2.2.2⟩
+
+/-- Sensitivity witness (seeded change C16-2): without the trailing `flush` a failure of the LAST write is
+never observed — the callback returns `Ok` over a truncated `.part` file, which `create_file_cleanly` then
+renames onto the final path. -/
+theorem C16_download_without_flush_loses_last_error :
+    ∃ (env : DL.Env) (stream : List (Option (List UInt8))) (n : Nat),
+      (DL.run env false stream).1 = .ok n ∧ (DL.run env false stream).2.file ≠ DL.payload stream ∧
+      (DL.run env true stream).1 = .diskWrite :=
+  ⟨⟨fun k => k != 1, fun _ => 1⟩, [some [1, 2], some [3, 4]], 4, by decide, by decide, by decide⟩
+
+/-- non-vacuity: a two-piece download with healthy disk satisfies the right-hand side of the iff -/
+example : (DL.run ⟨fun _ => true, fun _ => 0⟩ true [some [1, 2], some [3]]).1 = .ok 3 := by decide
